@@ -287,7 +287,7 @@ def run_script(version, script):
 
 class Check(PropertyCheck):
     pid = "C12"
-    gen_files = ["GenApp", "GenCallbacks", "GenStatus", "GenAppFn"]
+    gen_files = ["GenApp", "GenCallbacks", "GenStatus", "GenAppFn", "GenSendPacketFn"]
     model_imports = ["gen.GenApp", "model.SendPacket"]
     run_expr = "run_send_case"
     case_type = "(list (N * N * N * N * N))"
